@@ -365,7 +365,31 @@ def tie_sylvdiag(ctx, ncases=None):
 # ---------------------------------------------------------------------------
 # oracle: residual on random float data
 
+def oracle_case_offset(rng):
+    """dense (or sparse) numeric data whose levels share a large offset and are split by order one
+    inside a block: H0_i V - V H0_j = Y must hold for these pairs (|dE| > atol); a guard with a
+    relative tolerance would wrongly treat them as degenerate.  Different blocks get different
+    offsets (blocks with a common offset are 'shared' for np.isclose and legitimately rejected)."""
+    nb = rng.randint(1, 3)
+    sizes = [rng.randint(2, 4) for _ in range(nb)]
+    offs = rng.sample([2.0 ** 20, 2.0 ** 24, 1e6, 2.0 ** 30, -(2.0 ** 22)], nb)
+    eigs = []
+    for b in range(nb):
+        lv = rng.sample([0.0, 1.0, 2.0, 0.5, 3.0, 0.25], rng.randint(2, 3))
+        e = [offs[b] + lv[k % len(lv)] for k in range(sizes[b])]
+        rng.shuffle(e)
+        eigs.append(e)
+    i = rng.randrange(nb)
+    j = i if rng.random() < 0.65 else rng.randrange(nb)
+    Y = [[rng.choice([1.0, -2.0, 0.5, 3.0]) * rng.uniform(0.5, 1) for _ in range(sizes[j])] for _ in range(sizes[i])]
+    return dict(eigs=[[[x, 0.0] for x in e] for e in eigs], Y=[[[y, 0.0] for y in r] for r in Y], i=i, j=j,
+                kind=rng.choice(["dense", "dense", "dense", "sparse"]), atol=rng.choice([1e-12, 1e-12, 1e-6]),
+                zero_block=False, offset=True)
+
+
 def oracle_case(rng):
+    if rng.random() < 0.3:
+        return oracle_case_offset(rng)
     nb = rng.randint(1, 3)
     sizes = [rng.randint(1, 4) for _ in range(nb)]
     cplx = rng.random() < 0.3
